@@ -678,7 +678,9 @@ class Inliner:
             if isinstance(n, (ast.Break, ast.Continue)):
                 return None
         has_helper = any(isinstance(n, ast.Call) and _resolve_helper(self.prog, f, n, self.known) is not None for b in st.body for n in [b] + list(_own_nodes(b)))
-        if not has_helper:
+        # ... or raises: a validation loop over the (name, value) pairs of several arguments is the sequence of their guards
+        has_raise = any(isinstance(n, (ast.Raise, ast.Assert)) for b in st.body for n in [b] + list(_own_nodes(b)))
+        if not has_helper and not has_raise:
             return None
         out: List[ast.stmt] = []
         for e in st.iter.elts:
@@ -1879,6 +1881,72 @@ class Inliner:
                 f.node.args.kw_defaults[i] = R().visit(d)
         return changed
 
+    def class_consts_to_literals(self, f: FunctionInfo) -> bool:
+        """`self.X` / `cls.X` / `<Class>.X` where X is bound once, at class level, to a literal (string, number, tuple / list /
+        set / frozenset of literals) and never assigned as an attribute anywhere in the package  ->  the literal"""
+        if f.cls is None or not f.params:
+            return False
+        if not hasattr(self, "_attr_stores"):
+            stores: Set[str] = set()
+            for m in self.prog.modules.values():
+                for n in ast.walk(m.tree):
+                    if isinstance(n, ast.Attribute) and isinstance(n.ctx, (ast.Store, ast.Del)):
+                        stores.add(n.attr)
+                    if isinstance(n, ast.Call) and isinstance(n.func, ast.Name) and n.func.id in ("setattr", "delattr") and len(n.args) >= 2 and isinstance(n.args[1], ast.Constant):
+                        stores.add(str(n.args[1].value))
+            self._attr_stores = stores
+
+        def literal(v: ast.AST) -> Optional[ast.AST]:
+            if isinstance(v, ast.Constant) and isinstance(v.value, (str, int, float)) and not isinstance(v.value, bool):
+                return v
+            if isinstance(v, (ast.Tuple, ast.List, ast.Set)) and v.elts and all(isinstance(e, ast.Constant) for e in v.elts):
+                return v
+            if isinstance(v, ast.Call) and isinstance(v.func, ast.Name) and v.func.id in ("frozenset", "tuple") and len(v.args) == 1 and not v.keywords \
+                    and isinstance(v.args[0], (ast.Tuple, ast.List, ast.Set)) and v.args[0].elts and all(isinstance(e, ast.Constant) for e in v.args[0].elts):
+                elts = [copy.deepcopy(e) for e in v.args[0].elts]
+                return ast.Set(elts=elts) if v.func.id == "frozenset" else ast.Tuple(elts=elts, ctx=ast.Load())
+            return None
+
+        table: Dict[str, ast.AST] = {}
+        for k in self.prog.mro(f.cls):
+            if not hasattr(k, "class_assigns"):
+                continue
+            for name, v in k.class_assigns.items():
+                if name in table or name in self._attr_stores:
+                    continue
+                lit = literal(v)
+                if lit is not None and sum(1 for st in k.node.body if isinstance(st, (ast.Assign, ast.AnnAssign)) and any(
+                        isinstance(t, ast.Name) and t.id == name for t in (st.targets if isinstance(st, ast.Assign) else [st.target]))) == 1:
+                    table[name] = lit
+        # a subclass that re-binds the name gives it another value for its instances: keep the attribute access then
+        for m in self.prog.modules.values():
+            for c in getattr(m, "classes", {}).values():
+                if c is not f.cls and f.cls in self.prog.mro(c):
+                    for name in list(table):
+                        if name in c.class_assigns:
+                            del table[name]
+        if not table:
+            return False
+        selfn = f.params[0]
+        cnames = {k.name for k in self.prog.mro(f.cls) if hasattr(k, "class_assigns")}
+        changed = False
+
+        class R(ast.NodeTransformer):
+            def visit_Attribute(self, n):
+                nonlocal changed
+                self.generic_visit(n)
+                if isinstance(n.ctx, ast.Load) and n.attr in table and isinstance(n.value, ast.Name) and (n.value.id in (selfn, "cls") or n.value.id in cnames):
+                    changed = True
+                    return ast.copy_location(copy.deepcopy(table[n.attr]), n)
+                return n
+
+        for i, st in enumerate(f.node.body):
+            f.node.body[i] = R().visit(st)
+        if changed:
+            ast.fix_missing_locations(f.node)
+            self.log.append(f"{f.qualname}: class-level constants read as their literals")
+        return changed
+
     def loops_to_dictcomp(self, f: FunctionInfo) -> bool:
         """`d = {}` directly followed by `for T in IT: [local = pure expr]* [if COND:] d[K] = V`  ->  `d = {K: V for T in IT if COND}`
         (the locals of the loop body are substituted; they and the loop targets must not be read after the loop)"""
@@ -2139,6 +2207,7 @@ class Inliner:
         for f in funcs:
             self.sorts_to_sorted(f)
             self.consts_to_literals(f)
+            self.class_consts_to_literals(f)
             self.merge_conditional_comprehensions(f)
             self.numpy_idioms(f)
             self.concat_to_append(f)
